@@ -7,6 +7,8 @@ import Mps.Drv.Sessions
 import Mps.Drv.Alg
 import Mps.Drv.Pool
 import Mps.Drv.Paillier
+import Mps.Drv.Sig
+import Mps.Drv.Nonce
 /-
   mpsdriver: reads the harness' JSON lines on stdin, answers one line per operation with what
   the MODEL says: {"id":N,"model":{...}}. Core-only (no Mathlib below this file).
@@ -25,6 +27,8 @@ def dispatch (st : DState) (suite op : String) (inp : Json) : DState × Json :=
   | "alg" | "algfind" => (st, Mps.Drv.Alg.handle op inp)
   | "pool" => (st, Mps.Drv.Pool.handle op inp)
   | "paillier" => (st, Mps.Drv.Paillier.handle op inp)
+  | "sig" => (st, Mps.Drv.Sig.handle op inp)
+  | "nonce" => (st, Mps.Drv.Nonce.handle op inp)
   | "session" => (st, Mps.Drv.Session.handle op inp)
   | "handler" | "handlerconc" => let (h, j) := Mps.Drv.Handler.handle st.handler op inp; ({ st with handler := h }, j)
   | _ => (st, jobj [("error", "unknown suite")])
